@@ -24,7 +24,11 @@ CHECKS["C16"] = {
                   "with more than one user are outside the bound; the privileged hex / find -l commands and lists mixing "
                   "'*' with names are outside the statement",
     "technique": "bounded-exhaustive enumeration of inputs and configurations on the real code against a reference predicate",
-    "rule": "A: all level names over {a,b} of length<=2 (thorough {a,b,c}, <=3) plus the empty level x all granted lists "
+    "rule": "LISTEN: the real MainLoop::run() is executed in the harness thread on a queue fed by the requests themselves "
+            "(auth / listen [-v|-u|-U] / bus data for every message / the empty request of a listening connection): the update "
+            "lines sent to the client must be exactly those of the messages its granted list contains (5 levels incl. prefixes "
+            "and suffixes of each other x 8 default lists from the ACL or --accesslevel x 8 user lists x 4 authentication states). "
+            "A: all level names over {a,b} of length<=2 (thorough {a,b,c}, <=3) plus the empty level x all granted lists "
             "of <=3 such names, the empty list and '*' -> Message::checkLevel and Message::hasLevel. "
             "B: every ACL {default entry from the ACL '*' row | from --accesslevel} x default list x user list (lists of "
             "<=2 names, empty, '*'; thorough: both lists together <=3 names, --accesslevel only with user lists of <=1 name) plus {no default entry} x "
@@ -68,6 +72,11 @@ CHECKS["C16"] = {
         "variant": "plain", "libset": "full",
         "quick": {"parts": 8, "deadline": 120, "args": ["--mode", "levels"], "bounds": "real MqttHandler: default lists of <=1 name x mqtt user lists of <=2 names / no mqtt user x 9 levels x 6 forms"},
         "thorough": {"parts": 16, "deadline": 600, "args": ["--mode", "levels"], "bounds": "as quick with names over {a,b,c} len<=2 + case variants"},
+    }, {
+        "harness": "c16_listen", "sources": ["engines/cmdmc/c16_listen.cpp"], "deps": _FIX,
+        "variant": "plain", "libset": "full",
+        "quick": {"parts": 16, "deadline": 200, "bounds": "REAL MainLoop::run(): {default levels from the ACL '*' row | --accesslevel} x 8 default lists x 8 user lists x 4 authentication states x 4 listen forms; 5 message levels incl. prefixes / suffixes of each other"},
+        "thorough": {"parts": 16, "deadline": 600, "bounds": "as quick (enumerated completely in both tiers)"},
     }],
 }
 
